@@ -82,7 +82,7 @@ def gen_cases(rng, n, tier):
                 continue     # a persistent object without versions
             for tx in sorted(rng.sample(range(1, 10), rng.randint(1, 4))):
                 rows.append(dict(k=ki, tx=tx))
-        out.append(dict(cfg=cfg, keys=keys, rows=rows))
+        out.append(dict(cfg=cfg, keys=keys, rows=rows, pending_flush=(i % 3 == 1)))
     return out
 
 
@@ -162,6 +162,10 @@ def _observe(env, cfg, case):
     if payload:
         conn.execute(vt.insert(), payload)
     conn.execute(Article.__table__.insert(), [dict(zip(kc, dbkey(cfg, k))) for k in case['keys']])
+    # transaction ids handed out in this case lie above those of the loaded rows
+    txt = env.manager.transaction_cls.__table__
+    conn.execute(txt.delete())
+    conn.execute(txt.insert().values(id=50))
     conn.commit()
     s = env.session()
     obs = []
@@ -169,14 +173,24 @@ def _observe(env, cfg, case):
         for ki, k in enumerate(case['keys']):
             # by column values, not by identity: the order of a composite identity is the mapper's, not ours
             obj = s.query(Article).filter_by(**dict(zip(kc, dbkey(cfg, k)))).one()
+            extra = 0
+            if case.get('pending_flush') and ki == 0:
+                # the newest version of this object was written by a flush the session has not committed yet: it
+                # counts, and counting must leave the session's transaction alone
+                obj.a = 5
+                s.flush()
+                extra = 1
             vc = obj.versions.count()
             try:
                 cnt = count_versions(obj)
                 err = None
+                if extra and obj.versions.count() != vc:
+                    err = 'rows vanished while counting: versions.count() %d -> %d' % (vc, obj.versions.count())
             except Exception as e:
                 s.rollback()
                 cnt, err = None, '%s: %s' % (type(e).__name__, str(e)[:120])
-            obs.append(dict(k=ki, count=cnt, versions_count=vc, err=err))
+            obs.append(dict(k=ki, count=(cnt - extra if cnt is not None and err is None else None), versions_count=vc - extra,
+                            err=err))
         try:
             tr = count_versions(Article())
         except Exception as e:
@@ -254,9 +268,10 @@ def shrink(case):
         if len(case['keys']) > 1:
             keys = case['keys'][:i] + case['keys'][i + 1:]
             rows = [dict(k=r['k'] - (1 if r['k'] > i else 0), tx=r['tx']) for r in case['rows'] if r['k'] != i]
-            out.append(dict(cfg=case['cfg'], keys=keys, rows=rows))
+            out.append(dict(cfg=case['cfg'], keys=keys, rows=rows, pending_flush=case.get('pending_flush')))
     for i in range(len(case['rows'])):
-        out.append(dict(cfg=case['cfg'], keys=case['keys'], rows=case['rows'][:i] + case['rows'][i + 1:]))
+        out.append(dict(cfg=case['cfg'], keys=case['keys'], rows=case['rows'][:i] + case['rows'][i + 1:],
+                        pending_flush=case.get('pending_flush')))
     for i, k in enumerate(case['keys']):
         for j, part in enumerate(k):
             if isinstance(part, str) and len(part) > 1:
